@@ -1,4 +1,5 @@
-//! C01 — DltMessageIterator over a Cursor / over the crate's LowMarkBufReader wiring (full and sliced reads) vs Dlt/Frame.v + Dlt/Iter.v
+//! C01 — DltMessageIterator over a Cursor / over the crate's LowMarkBufReader wiring (full and sliced reads) / inside the probe of an
+//! input file (get_dlt_infos_from_read / _from_file) vs Dlt/Frame.v + Dlt/Iter.v + Dlt/Probe.v
 //! Streams are built from abstract messages (ground truth) and garbage runs; the real iterator is drained;
 //! the oracle checks the property text against the ground truth whenever the stream is inside the
 //! property's domain (markers only at message starts); a second, malformed family only feeds the
@@ -1063,6 +1064,478 @@ pub fn sliced_family(sink: &mut Sink, rng: &mut Rng, tier: &str) {
     }
 }
 
+// ------------------------------------------------------------------ the probe of an input file
+/// `adlt::utils::get_dlt_infos_from_read` / `get_dlt_infos_from_file`: the entry point through which `adlt convert`
+/// (resolve_input_filename) and `adlt remote` (file_names_to_file_streams) look at every input file first -- one
+/// read() of at most `read_size` bytes, the DLT iterator over them, first message + the set of ECU ids.  A file whose
+/// probe has no first message is dropped by the callers; `ecus_seen` decides how files are grouped into streams.
+/// The call sites pass 512 KiB.
+pub const CALL_SITE_PROBE_SIZE: usize = 512 * 1024;
+
+#[derive(Clone, Debug)]
+pub struct ProbeSpec {
+    pub read_size: usize,
+    /// the source delivers at most this many bytes in its first read() (None: a regular file / Cursor)
+    pub first_read: Option<u64>,
+    pub ext: String,
+    /// get_dlt_infos_from_file on a temporary file instead of get_dlt_infos_from_read
+    pub via_file: bool,
+    pub with_len: bool,
+    pub with_mtime: bool,
+}
+impl ProbeSpec {
+    pub fn json(&self) -> Value {
+        json!({"read_size": self.read_size, "first_read": self.first_read, "ext": self.ext, "via_file": self.via_file,
+            "with_len": self.with_len, "with_mtime": self.with_mtime})
+    }
+    pub fn from_json(v: &Value) -> ProbeSpec {
+        ProbeSpec { read_size: v["read_size"].as_u64().unwrap() as usize, first_read: v["first_read"].as_u64(), ext: v["ext"].as_str().unwrap_or("dlt").to_string(),
+            via_file: v["via_file"].as_bool().unwrap_or(false), with_len: v["with_len"].as_bool().unwrap_or(false), with_mtime: v["with_mtime"].as_bool().unwrap_or(false) }
+    }
+    /// the bytes the probe is asked to look at
+    pub fn range(&self, total: usize) -> usize {
+        let mut r = self.read_size.min(total);
+        if let Some(f) = self.first_read {
+            if self.read_size > 0 {
+                r = r.min(f.max(1) as usize);
+            }
+        }
+        r
+    }
+}
+
+pub struct ProbeRun {
+    pub first: Option<Item>,
+    /// DltFileInfos.ecus_seen, sorted
+    pub ecus: Vec<[u8; 4]>,
+    pub read_size: usize,
+    pub file_len: Option<u64>,
+    pub mtime: Option<u64>,
+    pub namespace: u32,
+    /// bytes taken from the source
+    pub consumed: usize,
+}
+
+pub const PROBE_MTIME: u64 = 1_700_000_000_123_456;
+
+pub fn run_probe(data: &[u8], sp: &ProbeSpec, ns: u32) -> Result<ProbeRun, String> {
+    let data = data.to_vec();
+    let sp = sp.clone();
+    catch_loc(std::panic::AssertUnwindSafe(move || {
+        let total = data.len();
+        let (dfi, consumed) = if sp.via_file {
+            use std::io::{Seek, SeekFrom, Write};
+            let mut f = tempfile::tempfile().expect("tempfile");
+            f.write_all(&data).unwrap();
+            f.flush().unwrap();
+            f.seek(SeekFrom::Start(0)).unwrap();
+            let dfi = adlt::utils::get_dlt_infos_from_file(&sp.ext, &mut f, sp.read_size, ns).expect("probe io");
+            let c = f.stream_position().unwrap() as usize;
+            (dfi, c)
+        } else {
+            let file_len = if sp.with_len { Some(total as u64) } else { None };
+            let mtime = if sp.with_mtime { Some(PROBE_MTIME) } else { None };
+            match sp.first_read {
+                None => {
+                    let mut cur = Cursor::new(data);
+                    let dfi = adlt::utils::get_dlt_infos_from_read(&sp.ext, &mut cur, file_len, mtime, sp.read_size, ns).expect("probe io");
+                    let c = cur.position() as usize;
+                    (dfi, c)
+                }
+                Some(first) => {
+                    let st = std::rc::Rc::new(std::cell::RefCell::new(ReadStats::default()));
+                    let mut src = SlicedSource { data, sched: vec![(1, first.max(1)), (FULL, FULL)], k: 0, used: 0, st: st.clone() };
+                    let dfi = adlt::utils::get_dlt_infos_from_read(&sp.ext, &mut src, file_len, mtime, sp.read_size, ns).expect("probe io");
+                    let c = st.borrow().pos;
+                    (dfi, c)
+                }
+            }
+        };
+        let mut ecus: Vec<[u8; 4]> = dfi.ecus_seen.iter().map(|e| *e.as_buf()).collect();
+        ecus.sort_by_key(|e| u32::from_be_bytes(*e));
+        ProbeRun { first: dfi.first_msg.as_ref().map(item_of), ecus, read_size: dfi.read_size, file_len: dfi.file_len, mtime: dfi.modified_time_us,
+            namespace: dfi.namespace, consumed }
+    }))
+}
+
+/// The property on the probe: whatever lies completely inside the bytes the probe is asked to look at is recovered --
+/// its first message IS the stream's first message (all fields), `ecus_seen` is exactly the set of the ECU ids of the
+/// messages completely inside that range (none missing, none from beyond), nothing is reported when no message is
+/// complete there, at most read_size bytes are taken from the source, the caller's values are passed through.
+/// Returns (verdict, in_domain, messages completely in range, range)
+pub fn probe_oracle(inp: &Input, b: Option<&Built>, total: usize, sp: &ProbeSpec, ns: u32, r: &Result<ProbeRun, String>) -> (Verdict, bool, usize, usize) {
+    let fail = |c: &str, d: String| Verdict::Fail { clause: c.into(), detail: d };
+    let range = sp.range(total);
+    if let Ok(r) = r {
+        if r.consumed > sp.read_size {
+            return (fail("probe_reads_at_most_read_size", format!("{} bytes taken from the source, read_size {}", r.consumed, sp.read_size)), false, 0, range);
+        }
+    }
+    let (framing, parts) = match inp {
+        Input::Raw { .. } => return (Verdict::Ok, false, 0, range),
+        Input::Stream { framing, parts, .. } => (*framing, parts),
+    };
+    let b = b.unwrap();
+    let msgs: Vec<&AMsg> = parts.iter().filter_map(|p| if let Part::M(m) = p { Some(m) } else { None }).collect();
+    let wf = msgs.iter().all(|m| m.len() <= 65535);
+    let (own, other): (&[u8; 4], &[u8; 4]) = if framing == 0 { (b"DLT\x01", b"DLS\x01") } else { (b"DLS\x01", b"DLT\x01") };
+    let clean = pat_positions(&b.data, own) == b.starts && pat_positions(&b.data, other).is_empty();
+    let in_domain = wf && clean;
+    let hdr = if framing == 0 { 16 } else { 4 };
+    let k = msgs.iter().zip(b.starts.iter()).take_while(|(m, s)| **s + hdr + m.len() <= range).count();
+    if !in_domain {
+        return (Verdict::Ok, false, k, range);
+    }
+    let r = match r {
+        Err(e) => return (fail("no_panic", e.clone()), true, k, range),
+        Ok(r) => r,
+    };
+    if k >= 1 {
+        let want = expected(framing, 0, msgs[0]);
+        match &r.first {
+            None => return (fail("probe_first_message", format!("no first message although the stream's first message occupies bytes {}..{} of the {} bytes probed", b.starts[0], b.starts[0] + hdr + msgs[0].len(), range)), true, k, range),
+            Some(it) if *it != want => return (fail("probe_first_message", format!("got {:?} want {:?}", it, want)), true, k, range),
+            _ => {}
+        }
+    } else if let Some(it) = &r.first {
+        return (fail("probe_no_message_outside_range", format!("first message {:?} although no message is complete within the {} bytes probed", it, range)), true, k, range);
+    }
+    let mut want: Vec<[u8; 4]> = msgs[..k].iter().map(|m| expected(framing, 0, m).ecu).collect();
+    want.sort_by_key(|e| u32::from_be_bytes(*e));
+    want.dedup();
+    if r.ecus != want {
+        return (fail("probe_ecus_exact", format!("ecus_seen {:?}, the {} messages within the {} bytes probed have {:?}", r.ecus, k, range, want)), true, k, range);
+    }
+    let want_len = if sp.via_file { Some(total as u64) } else if sp.with_len { Some(total as u64) } else { None };
+    let mtime_ok = if sp.via_file { r.mtime.is_some() } else { r.mtime == if sp.with_mtime { Some(PROBE_MTIME) } else { None } };
+    if r.read_size != sp.read_size || r.namespace != ns || r.file_len != want_len || !mtime_ok {
+        return (fail("probe_infos_passthrough", format!("read_size {} namespace {} file_len {:?} mtime {:?}", r.read_size, r.namespace, r.file_len, r.mtime)), true, k, range);
+    }
+    (Verdict::Ok, true, k, range)
+}
+
+pub fn record_probe(sink: &mut Sink, inp: Input, sp: ProbeSpec, extra_tags: &[&str]) {
+    let (built, segs) = match &inp {
+        Input::Raw { segs, .. } => (None, segs.clone()),
+        Input::Stream { framing, parts, .. } => {
+            let b = build(*framing, parts);
+            let s = b.segs.clone();
+            (Some(b), s)
+        }
+    };
+    let data = match &built {
+        Some(b) => b.data.clone(),
+        None => flatten(&segs),
+    };
+    let ns = adlt::utils::get_new_namespace();
+    let r = run_probe(&data, &sp, ns);
+    let (verdict, in_domain, k, range) = probe_oracle(&inp, built.as_ref(), data.len(), &sp, ns, &r);
+    let obs = match &r {
+        Ok(r) => O::T(vec![O::L(4), O::opt(r.first.as_ref().map(o_item)), O::T(r.ecus.iter().map(o_c4).collect()), O::n(r.consumed as u64)]),
+        Err(_) => O::T(vec![O::L(1)]),
+    };
+    let input_coq = format!("(WProbe {} {}, 0, {})", sp.read_size, sp.first_read.map(|f| f.max(1)).unwrap_or(FULL), coq_segs(&segs));
+    let mut tags: Vec<String> = extra_tags.iter().map(|s| s.to_string()).collect();
+    tags.push("probe".into());
+    if sp.read_size == CALL_SITE_PROBE_SIZE {
+        tags.push("probe_call_site_size".into());
+    }
+    if sp.via_file {
+        tags.push("probe_via_file".into());
+    }
+    if sp.first_read.is_some() {
+        tags.push("probe_short_first_read".into());
+    }
+    if data.len() > 30000 {
+        tags.push("heavy".into());
+    }
+    let mut nontrivial = false;
+    match &inp {
+        Input::Raw { .. } => tags.push("raw".into()),
+        Input::Stream { framing, parts, .. } => {
+            tags.push(if *framing == 0 { "storage".into() } else { "serial".into() });
+            tags.push(if in_domain { "in_domain".into() } else { "outside_domain".into() });
+            let b = built.as_ref().unwrap();
+            let nm = b.starts.len();
+            tags.push(format!("probe_in_range{}", k.min(9)));
+            if k < nm {
+                tags.push("probe_msgs_beyond_range".into());
+            }
+            if range < data.len() {
+                tags.push("probe_range_cuts_stream".into());
+            }
+            if let Some(s0) = b.starts.first() {
+                let hdr = if *framing == 0 { 16 } else { 4 };
+                let first_size = parts.iter().find_map(|p| if let Part::M(m) = p { Some(hdr + m.len()) } else { None }).unwrap_or(0);
+                tags.push(match *s0 { 0 => "probe_lead0", 1..=999 => "probe_lead_lt1000", 1000..=8191 => "probe_lead_lt8k", 8192..=65535 => "probe_lead_lt64k", _ => "probe_lead_ge64k" }.into());
+                tags.push(match first_size { 0..=99 => "probe_first_lt100", 100..=8191 => "probe_first_lt8k", _ => "probe_first_ge8k" }.into());
+                if s0 + first_size > range {
+                    tags.push("probe_first_not_in_range".into());
+                }
+            }
+            nontrivial = in_domain && k >= 1 && (range < data.len() || k >= 2) && b.garbage_total > 0;
+        }
+    }
+    match &r {
+        Ok(r) => {
+            tags.push(if r.first.is_some() { "probe_first_some".into() } else { "probe_first_none".into() });
+            tags.push(format!("probe_ecus{}", r.ecus.len().min(9)));
+        }
+        Err(_) => tags.push("panic".into()),
+    }
+    let mut j = input_json(&inp);
+    j["probe"] = sp.json();
+    let id = sink.next_id();
+    sink.push(Case { id, key: input_coq.clone(), input_coq, input_json: j, obs, verdict, classes: vec![], tags, nontrivial });
+}
+
+/// a structurally described message of exactly `total` bytes on the wire whose ECU is `ecu` -- carried in the standard
+/// header (with_id) or, storage framing only, in the storage header
+pub fn ecu_msg(framing: u8, total: usize, ecu: [u8; 4], with_id: bool, shape: u8, mcnt: u8, fill: u8) -> AMsg {
+    let hdr = if framing == 0 { 16usize } else { 4 };
+    let with_id = with_id || framing == 1;
+    let cands: &[u8] = if with_id { &[0x24, 0x3f, 0x35, 0x2c, 0x26] } else { &[0x20, 0x21, 0x31, 0x38, 0x22] };
+    let mut htyp = cands[shape as usize % cands.len()];
+    if hdr + plain(htyp, b"").hs() > total {
+        htyp = cands[0];
+    }
+    let total = total.max(hdr + plain(htyp, b"").hs());
+    let mut m = sized_msg(framing, total, htyp, mcnt, fill);
+    if with_id {
+        m.ecu = ecu;
+        m.secu = *b"STOR";
+    } else {
+        m.secu = ecu;
+    }
+    m
+}
+
+pub fn marker_free_run(rng: &mut Rng, n: usize) -> Segs {
+    if n == 0 {
+        return vec![];
+    }
+    let block: &[u8] = *rng.pick(&[&[0x55u8][..], &[0u8][..], &b"DL"[..], &b"DLT"[..], &b"DLS\x00"[..], &b"DLT\x02"[..], &[0xffu8, 0x01][..]]);
+    let mut s: Segs = vec![];
+    let (q, r) = (n / block.len(), n % block.len());
+    if q > 0 {
+        s.push((q as u64, block.to_vec()));
+    }
+    if r > 0 {
+        // the remainder must not complete a marker with what follows: use a neutral byte
+        s.push((r as u64, vec![0x2e]));
+    }
+    s
+}
+
+pub fn marker_free_gap(rng: &mut Rng, lo: u64, hi: u64) -> Segs {
+    let n = rng.range(lo, hi) as usize;
+    marker_free_run(rng, n)
+}
+
+/// the large-scale scenario: `lead` marker-free bytes, a first message of `t1` bytes whose ECU occurs only once, a few
+/// messages of other ECUs, then (when the probed range is longer) big filler messages up to the end of the range, a
+/// message straddling it and messages behind it with ECUs that occur nowhere else
+pub fn probe_big_stream(rng: &mut Rng, f: u8, rs: usize, lead: usize, t1: usize) -> Vec<Part> {
+    let hdr = if f == 0 { 16usize } else { 4 };
+    let mut parts = vec![];
+    if lead > 0 {
+        parts.push(Part::G(marker_free_run(rng, lead)));
+    }
+    let first_with_id = rng.chance(1, 2);
+    parts.push(Part::M(ecu_msg(f, t1, *b"FRST", first_with_id, rng.below(5) as u8, 0x11, 0x41)));
+    if rng.chance(1, 2) {
+        parts.push(Part::G(marker_free_gap(rng, 1, 40)));
+    }
+    parts.push(Part::M(ecu_msg(f, hdr + rng.range(8, 60) as usize, *b"ECU2", true, rng.below(5) as u8, 0x12, 0x42)));
+    parts.push(Part::M(ecu_msg(f, hdr + rng.range(1000, 5000) as usize, *b"ECU3", rng.chance(1, 2), rng.below(5) as u8, 0x13, 0x43)));
+    parts.push(Part::G(marker_free_run(rng, 7)));
+    parts.push(Part::M(ecu_msg(f, hdr + rng.range(8, 30) as usize, *b"ECU2", true, rng.below(5) as u8, 0x14, 0x44)));
+    let mut pos = build(f, &parts).data.len();
+    let mut i = 0u8;
+    while pos + hdr + 60000 <= rs && i < 12 {
+        parts.push(Part::M(ecu_msg(f, hdr + 60000, *b"ECU2", true, i, 0x20 + i, 0x2e)));
+        pos += hdr + 60000;
+        i += 1;
+    }
+    if pos < rs {
+        // a message that ends within a few bytes of the end of the range (its ECU counts iff it is complete there)
+        let d = rng.range(0, 6) as i64 - 3;
+        let t = rs as i64 - pos as i64 + d;
+        if t >= (hdr + 8) as i64 && t <= (hdr + 65535) as i64 {
+            parts.push(Part::M(ecu_msg(f, t as usize, *b"EDGE", true, 1, 0x31, 0x45)));
+        } else if t > (hdr + 65535) as i64 {
+            parts.push(Part::M(ecu_msg(f, hdr + 30000, *b"ECU3", true, 1, 0x31, 0x45)));
+        }
+    }
+    parts.push(Part::M(ecu_msg(f, hdr + rng.range(8, 3000) as usize, *b"LATE", true, 2, 0x32, 0x46)));
+    parts.push(Part::M(ecu_msg(f, hdr + 12, *b"ECU2", true, 3, 0x33, 0x47)));
+    if rng.chance(1, 2) {
+        parts.push(Part::G(marker_free_gap(rng, 1, 19)));
+    }
+    parts
+}
+
+pub fn probe_family(sink: &mut Sink, rng: &mut Rng, tier: &str) {
+    let (quick, search) = (tier == "quick", tier == "search");
+    let mult = if quick { 1 } else if search { 2 } else { 8 };
+    let pick_ext = |rng: &mut Rng| -> String { rng.pick(&["dlt", "dlt", "DLT", "", "bin"]).to_string() };
+    let spec = |rng: &mut Rng, read_size: usize, first_read: Option<u64>| -> ProbeSpec {
+        let via_file = first_read.is_none() && rng.chance(1, 5);
+        ProbeSpec { read_size, first_read, ext: pick_ext(rng), via_file, with_len: rng.chance(1, 2), with_mtime: rng.chance(1, 2) }
+    };
+    // (A) every kind of cut: small generated in-domain streams, the end of the probed range at / next to every
+    //     message boundary, inside headers and payloads, 0, beyond the end; the range given by read_size or by what
+    //     the source delivers in its first read
+    for _ in 0..(40 * mult) {
+        let max_payload = *rng.pick(&[24usize, 60, 120]);
+        let inp = gen_stream(rng, 6, max_payload, 26);
+        let (f, parts) = match &inp { Input::Stream { framing, parts, .. } => (*framing, parts.clone()), _ => unreachable!() };
+        let (bnd, _, _) = boundaries(f, &parts);
+        let total = build(f, &parts).data.len() as u64;
+        let mut cuts: Vec<u64> = vec![0, 1, 7, 8, 19, 20, total.saturating_sub(1), total, total + 1, 1_000_000, CALL_SITE_PROBE_SIZE as u64];
+        for b in &bnd {
+            for d in [-1i64, 0, 1, 4, 5, 16, 21] {
+                cuts.push((*b as i64 + d).max(0) as u64);
+            }
+        }
+        for _ in 0..3 {
+            let cut = *rng.pick(&cuts);
+            let sp = if rng.chance(1, 4) && cut >= 1 {
+                let rs = *rng.pick(&[cut as usize + 1, cut as usize + 100, CALL_SITE_PROBE_SIZE]);
+                spec(rng, rs, Some(cut))
+            } else {
+                spec(rng, cut as usize, None)
+            };
+            record_probe(sink, inp.clone(), sp, &["probe_cuts"]);
+        }
+    }
+    // (B) several ECUs: the ECU of the first message occurs only once; ids carried in the standard header or only in
+    //     the storage header; the last message has an ECU of its own as well; range = everything / the call sites' /
+    //     cut so that the last one or two messages are outside
+    for k in 0..(60 * mult) {
+        let f = (k % 2) as u8;
+        let hdr = if f == 0 { 16usize } else { 4 };
+        let n = rng.range(1, 7) as usize;
+        let pool: [[u8; 4]; 4] = [*b"ECU2", *b"ECU3", [0, 0, 0, 0], *b"E\0\0\0"];
+        let mut parts = vec![];
+        if rng.chance(1, 2) {
+            parts.push(Part::G(marker_free_gap(rng, 1, 30)));
+        }
+        for i in 0..n {
+            let ecu = if i == 0 { *b"FRST" } else if i + 1 == n && rng.chance(1, 2) { *b"LAST" } else { *rng.pick(&pool) };
+            parts.push(Part::M(ecu_msg(f, hdr + rng.range(4, 60) as usize, ecu, rng.chance(1, 2), rng.below(5) as u8, i as u8, 0x61 + i as u8)));
+            if rng.chance(1, 3) {
+                parts.push(Part::G(marker_free_gap(rng, 1, 25)));
+            }
+        }
+        let (bnd, _, _) = boundaries(f, &parts);
+        let total = build(f, &parts).data.len();
+        let rs = match rng.below(4) {
+            0 => total + rng.range(0, 100) as usize,
+            1 => CALL_SITE_PROBE_SIZE,
+            _ => (*rng.pick(&bnd) as i64 + rng.range(0, 2) as i64 - 1).max(0) as usize,
+        };
+        let sp = if rng.chance(1, 5) && rs >= 1 { spec(rng, CALL_SITE_PROBE_SIZE, Some(rs as u64)) } else { spec(rng, rs, None) };
+        record_probe(sink, Input::Stream { framing: f, start: 0, parts }, sp, &["probe_ecus"]);
+    }
+    // (C) the call sites' scale: long marker-free runs in front of the first message and large first messages, placed
+    //     relative to powers of two (what a buffer in between might hold) and to the end of the probed range
+    {
+        let big = CALL_SITE_PROBE_SIZE;
+        let mut specs: Vec<(u8, usize, usize, usize)> = vec![]; // (framing, read_size, lead, size of the first message)
+        for f in 0..2u8 {
+            let hdr = if f == 0 { 16usize } else { 4 };
+            // garbage of some KiB / 64 KiB / nearly the whole range in front of a small first message
+            for lead in [4096usize, 9000, 20000, 65537, 131072, 300000] {
+                specs.push((f, big, lead + rng.below(50) as usize, hdr + rng.range(4, 80) as usize));
+            }
+            // a large first message at the very start, and behind some garbage
+            for t1 in [hdr + 5000, hdr + 20000, hdr + 65535] {
+                specs.push((f, big, 0, t1));
+                specs.push((f, big, rng.range(1, 3000) as usize, t1));
+            }
+            // the first message ends exactly at / one before / one after the end of the probed range
+            for d in [-1i64, 0, 1] {
+                let t1 = hdr + rng.range(4, 400) as usize;
+                specs.push((f, big, (big as i64 - t1 as i64 + d) as usize, t1));
+            }
+            // the first message starts behind the range
+            specs.push((f, big, big + rng.below(30) as usize, hdr + 9));
+            // smaller probes, same structure
+            for rs in [9000usize, 20000, 70000, 131072] {
+                let t1 = hdr + rng.range(4, 300) as usize;
+                specs.push((f, rs, rs - t1 - rng.below(3) as usize, t1));
+                specs.push((f, rs, rng.below(rs as u64 / 2) as usize, hdr + rng.range(4, (rs / 2) as u64).min(65535) as usize));
+            }
+        }
+        // first message / its end relative to a power of two
+        let n_rand = if quick { 28 } else if search { 40 } else { 400 };
+        for _ in 0..n_rand {
+            let f = rng.below(2) as u8;
+            let hdr = if f == 0 { 16usize } else { 4 };
+            let rs = *rng.pick(&[big, big, big, 131072, 70000, 20000, 9000, 3000]);
+            let p2 = 1usize << rng.range(6, 19);
+            let d = rng.range(0, 4) as i64 - 2;
+            let t1 = match rng.below(4) { 0 => hdr + 4, 1 => hdr + rng.range(4, 100) as usize, 2 => hdr + rng.range(100, 9000) as usize, _ => hdr + rng.range(9000, 65535) as usize };
+            let lead = match rng.below(3) {
+                0 => p2 as i64 + d,                  // the first message starts around 2^k
+                1 => p2 as i64 + d - t1 as i64,      // ... ends around 2^k
+                _ => p2 as i64 + d - (hdr + 4) as i64, // its header ends around 2^k
+            };
+            if lead < 0 || lead as usize > rs + 64 {
+                continue;
+            }
+            specs.push((f, rs, lead as usize, t1));
+        }
+        for (f, rs, lead, t1) in specs {
+            let parts = probe_big_stream(rng, f, rs, lead, t1);
+            let first_read = if rng.chance(1, 8) { Some(rs as u64) } else { None };
+            let more = rng.range(1, 5000) as usize;
+            let sp = if first_read.is_some() { spec(rng, rs + more, first_read) } else { spec(rng, rs, None) };
+            record_probe(sink, Input::Stream { framing: f, start: 0, parts }, sp, &["probe_big"]);
+        }
+    }
+    // (D) malformed streams through the probe (model vs code only)
+    for _ in 0..(30 * mult) {
+        let inp = gen_malformed(rng);
+        let total = match &inp { Input::Raw { segs, .. } => segs_len(segs), _ => 0 };
+        let rs = match rng.below(4) { 0 => rng.below(total as u64 + 2) as usize, 1 => CALL_SITE_PROBE_SIZE, _ => total + rng.below(50) as usize };
+        let sp = spec(rng, rs, None);
+        record_probe(sink, inp, sp, &["probe_malformed"]);
+    }
+}
+
+/// garbage runs of any length (wave 7): kilobytes .. more than the 512 KiB buffer of marker-free bytes before, between
+/// and behind small messages, read through a Cursor, through the crate's wiring with full reads and with sliced reads
+/// (the model evaluates such streams with the accelerated iterator, Properties/C01.v C01_fast_iter_equal)
+pub fn long_garbage_family(sink: &mut Sink, rng: &mut Rng, tier: &str) {
+    let lens: &[usize] = if tier == "quick" { &[5000, 70000, 600000] } else { &[5000, 9000, 70000, 140000, 300000, 600000, 1100000] };
+    for f in 0..2u8 {
+        let hdr = if f == 0 { 16usize } else { 4 };
+        for (j, &len) in lens.iter().enumerate() {
+            let mut parts = vec![];
+            let at = (j + f as usize) % 3; // where the long run sits: in front / between / behind
+            let run = |rng: &mut Rng, long: bool| -> Part { if long { let n = len + rng.below(7) as usize; Part::G(marker_free_run(rng, n)) } else { Part::G(marker_free_gap(rng, 0, 40)) } };
+            parts.push(run(rng, at == 0));
+            parts.push(Part::M(ecu_msg(f, hdr + rng.range(4, 80) as usize, *b"ECU1", true, rng.below(5) as u8, 1, 0x61)));
+            parts.push(run(rng, at == 1));
+            parts.push(Part::M(ecu_msg(f, hdr + rng.range(4, 3000) as usize, *b"ECU2", rng.chance(1, 2), rng.below(5) as u8, 2, 0x62)));
+            parts.push(Part::M(ecu_msg(f, hdr + 4, *b"ECU1", true, rng.below(5) as u8, 3, 0x63)));
+            parts.push(run(rng, at == 2));
+            let start = rng.below(1000) as u32;
+            match (j + f as usize) % 3 {
+                0 => record(sink, Input::Stream { framing: f, start, parts }, &["long_garbage", "heavy"]),
+                1 => record_wired(sink, f, start, parts, rng.chance(1, 2), &["long_garbage"]),
+                _ => {
+                    let look4 = rng.chance(1, 2);
+                    let (sched, tag) = make_sched(*rng.pick(&[2u64, 3, 7]), rng, f, &parts, look4);
+                    record_sliced(sink, Input::Stream { framing: f, start, parts }, look4, (j % 2) as u8, "dlt", sched, &["long_garbage", tag]);
+                }
+            }
+        }
+    }
+}
+
 // ------------------------------------------------------------------ generators
 pub fn r4(rng: &mut Rng) -> [u8; 4] {
     match rng.below(4) {
@@ -1478,7 +1951,9 @@ fn main() {
     if let Some(p) = &a.replay {
         let v = read_replay(p);
         let c = &v["case"];
-        if c.get("sliced").is_some() {
+        if c.get("probe").is_some() {
+            record_probe(&mut sink, input_from_json(c), ProbeSpec::from_json(&c["probe"]), &["replay"]);
+        } else if c.get("sliced").is_some() {
             let w = &c["sliced"];
             record_sliced(&mut sink, input_from_json(c), w["look4"].as_bool().unwrap_or(false), w["ctor"].as_u64().unwrap_or(0) as u8,
                 w["ext"].as_str().unwrap_or("dlt"), sched_of(&w["sched"]), &["replay"]);
@@ -1511,6 +1986,10 @@ fn main() {
     }
     wired_family(&mut sink, &mut rng, &a.tier);
     sliced_family(&mut sink, &mut rng, &a.tier);
+    probe_family(&mut sink, &mut rng, &a.tier);
+    if a.tier != "search" {
+        long_garbage_family(&mut sink, &mut rng, &a.tier);
+    }
     // the buffered cases are expensive for the model (streams > 512 KiB, near-maximum messages): spread them evenly over the shards
     let (wired, mut other): (Vec<Case>, Vec<Case>) = std::mem::take(&mut sink.cases).into_iter().partition(|c| c.tags.iter().any(|t| t == "wired" || t == "heavy"));
     let step = (other.len() / wired.len().max(1)).max(1);
